@@ -17,13 +17,35 @@ type Pred func(Lit) bool
 // condition value it was derived from is re-evaluated, i.e. when its defining
 // block is entered again in a loop). A requirement "on every path, F(mask)"
 // is then decided exactly for the abstraction "which checks were passed".
-type maskSet map[uint32]bool
-
 type pathInfo struct {
 	fn    *ssa.Function
 	preds []Pred
-	in    []maskSet
-	kill  []uint32 // per block: bits whose condition value is defined in the block
+	// atoms: one bit per (predicate, condition value) pair, so that
+	// re-evaluation of a condition only invalidates the fact it established
+	atomPred []int
+	atomVal  []ssa.Value
+	in       []map[uint64]bool
+	kill     []uint64 // per block: atoms whose condition value is defined in the block
+}
+
+func (pi *pathInfo) predMask(m uint64) uint32 {
+	var r uint32
+	for i, pidx := range pi.atomPred {
+		if m&(1<<uint(i)) != 0 {
+			r |= 1 << uint(pidx)
+		}
+	}
+	return r
+}
+
+func (pi *pathInfo) atomBits(l Lit) uint64 {
+	var bits uint64
+	for i := range pi.atomPred {
+		if pi.atomVal[i] == l.V && pi.preds[pi.atomPred[i]](l) {
+			bits |= 1 << uint(i)
+		}
+	}
+	return bits
 }
 
 func edgeLit(pr, succ *ssa.BasicBlock) (Lit, bool) {
@@ -45,28 +67,35 @@ func edgeLit(pr, succ *ssa.BasicBlock) (Lit, bool) {
 func (p *Prog) pathMasks(fn *ssa.Function, preds []Pred) *pathInfo {
 	pi := &pathInfo{fn: fn, preds: preds}
 	nb := len(fn.Blocks)
-	pi.in = make([]maskSet, nb)
-	pi.kill = make([]uint32, nb)
+	pi.in = make([]map[uint64]bool, nb)
+	pi.kill = make([]uint64, nb)
 	for i := range pi.in {
-		pi.in[i] = maskSet{}
+		pi.in[i] = map[uint64]bool{}
 	}
 	if nb == 0 {
 		return pi
 	}
-	// kill masks
+	// atoms and kill masks
+	seenCond := map[ssa.Value]bool{}
 	for _, b := range fn.Blocks {
 		if n := len(b.Instrs); n > 0 {
 			if iff, ok := b.Instrs[n-1].(*ssa.If); ok {
 				v, _ := stripNot(iff.Cond, true)
-				var bits uint32
+				if seenCond[v] {
+					continue
+				}
+				seenCond[v] = true
 				for i, q := range preds {
 					if q(Lit{V: v, Pos: true}) || q(Lit{V: v, Pos: false}) {
-						bits |= 1 << uint(i)
-					}
-				}
-				if bits != 0 {
-					if in, ok := v.(ssa.Instruction); ok && in.Block() != nil {
-						pi.kill[in.Block().Index] |= bits
+						if len(pi.atomPred) >= 63 {
+							panic("pathMasks: more than 63 (predicate, condition) atoms in " + fn.String())
+						}
+						bit := uint64(1) << uint(len(pi.atomPred))
+						pi.atomPred = append(pi.atomPred, i)
+						pi.atomVal = append(pi.atomVal, v)
+						if in, ok := v.(ssa.Instruction); ok && in.Block() != nil {
+							pi.kill[in.Block().Index] |= bit
+						}
 					}
 				}
 			}
@@ -80,13 +109,9 @@ func (p *Prog) pathMasks(fn *ssa.Function, preds []Pred) *pathInfo {
 		work = work[1:]
 		inWork[b] = false
 		for _, s := range b.Succs {
-			var add uint32
+			var add uint64
 			if l, ok := edgeLit(b, s); ok {
-				for i, q := range preds {
-					if q(l) {
-						add |= 1 << uint(i)
-					}
-				}
+				add = pi.atomBits(l)
 			}
 			changed := false
 			for m := range pi.in[b.Index] {
@@ -111,8 +136,8 @@ func (p *Prog) allPaths(at ssa.Instruction, preds []Pred, formula func(uint32) b
 	fn := at.Parent()
 	pi := p.pathMasks(fn, preds)
 	for m := range pi.in[at.Block().Index] {
-		if !formula(m) {
-			return false, m
+		if pm := pi.predMask(m); !formula(pm) {
+			return false, pm
 		}
 	}
 	return true, 0
@@ -121,18 +146,14 @@ func (p *Prog) allPaths(at ssa.Instruction, preds []Pred, formula func(uint32) b
 // allPathsEdge: same, for the paths that reach block succ through the edge pred->succ.
 func (p *Prog) allPathsEdge(pred, succ *ssa.BasicBlock, preds []Pred, formula func(uint32) bool) (bool, uint32) {
 	pi := p.pathMasks(pred.Parent(), preds)
-	var add uint32
+	var add uint64
 	if l, ok := edgeLit(pred, succ); ok {
-		for i, q := range preds {
-			if q(l) {
-				add |= 1 << uint(i)
-			}
-		}
+		add = pi.atomBits(l)
 	}
 	for m := range pi.in[pred.Index] {
 		nm := (m &^ pi.kill[pred.Index]) | add
-		if !formula(nm) {
-			return false, nm
+		if pm := pi.predMask(nm); !formula(pm) {
+			return false, pm
 		}
 	}
 	return true, 0
